@@ -11,6 +11,23 @@ PROGS = None
 SENT = object()
 
 
+class _Empty:
+    def __len__(self):
+        return 0
+
+
+# what the dictionary holds under "hy" beforehand: index 0 = no entry; truthy and falsy objects alike must come back
+PRIOR = [None, SENT, None, 0, "", (), False, _Empty(), "module"]
+
+
+def prior(hv):
+    if PRIOR[hv] == "module" and isinstance(PRIOR[hv], str):
+        import hy
+
+        return hy
+    return PRIOR[hv]
+
+
 def _progs():
     global PROGS
     if PROGS is None:
@@ -42,7 +59,9 @@ def _mk(k, log):
     return E
 
 
-def _one(pi, has_hy, give_locals, same_dict, k, x, why):
+def _one(pi, hv, give_locals, same_dict, k, x, why):
+    has_hy = hv != 0
+    was = prior(hv)
     import hy
     from hy.errors import HyLanguageError
 
@@ -58,12 +77,12 @@ def _one(pi, has_hy, give_locals, same_dict, k, x, why):
     g["E"] = _mk(k, log)
     g["x"] = x
     if has_hy:
-        g["hy"] = SENT
+        g["hy"] = was
     if give_locals and not same_dict:
         l = {}
         l_has = has_hy  # same choice for the second dict
         if l_has:
-            l["hy"] = SENT
+            l["hy"] = was
     elif give_locals:
         l = g
         l_has = has_hy
@@ -92,11 +111,11 @@ def _one(pi, has_hy, give_locals, same_dict, k, x, why):
             pass
         if ("hy" in d) != had:
             if why is not None:
-                why.append("%s dict: had hy=%r before, 'hy' in dict = %r after (outcome %r)" % (nm, had, "hy" in d, out))
+                why.append("%s dict: had a hy entry before: %r (value %r); has one after: %r (outcome %r)" % (nm, had, was, "hy" in d, out))
             return False
-        if had and d["hy"] is not SENT:
+        if had and d["hy"] is not was:
             if why is not None:
-                why.append("%s dict: hy entry replaced by %r (outcome %r)" % (nm, d["hy"], out))
+                why.append("%s dict: hy entry %r replaced by %r (outcome %r)" % (nm, was, d["hy"], out))
             return False
     # the value
     if out[0] == "v":
@@ -124,16 +143,16 @@ def _one(pi, has_hy, give_locals, same_dict, k, x, why):
     return True
 
 
-def eval_ok(pi, has_hy, give_locals, same_dict, k, x, why=None):
+def eval_ok(pi, hv, give_locals, same_dict, k, x, why=None):
     from vf import skel
 
     if why is None and skel.EXPLAIN[0]:
         del skel.LAST_WHY[:]
         why = skel.LAST_WHY
-    return _one(pi, has_hy, give_locals, same_dict, k, x, why)
+    return _one(pi, hv, give_locals, same_dict, k, x, why)
 
 
-def eval_twice_ok(p1, p2, has_hy, k1, k2, x, why=None):
+def eval_twice_ok(p1, p2, hv, k1, k2, x, why=None):
     """Two calls on the same dictionary: the second must behave as if the first (possibly failed) had not happened."""
     from vf import skel
 
@@ -146,8 +165,10 @@ def eval_twice_ok(p1, p2, has_hy, k1, k2, x, why=None):
     g = {}
     log = []
     g["x"] = x
+    has_hy = hv != 0
+    was = prior(hv)
     if has_hy:
-        g["hy"] = SENT
+        g["hy"] = was
     for pi, k in ((p1, k1), (p2, k2)):
         g["E"] = _mk(k, log)
         model = _progs()[pi]
@@ -157,13 +178,13 @@ def eval_twice_ok(p1, p2, has_hy, k1, k2, x, why=None):
             model = strsym.untraced(hy.read_many, "(E 0 x) (setv y (E 1 x)) (E 2 (+ y 1))")
         try:
             v = hy.eval(model, g)
-            if pi != 4 and v != x + 1:
+            if pi not in (4,) and v != x + 1:
                 if why is not None:
                     why.append("call of program %d returned %r" % (pi, v))
                 return False
-        except (Fault, HyLanguageError):
+        except (Fault, HyLanguageError, NameError, AttributeError, UnboundLocalError):
             pass
-        if ("hy" in g) != has_hy or (has_hy and g["hy"] is not SENT):
+        if ("hy" in g) != has_hy or (has_hy and g["hy"] is not was):
             if why is not None:
                 why.append("after program %d (fault %d): hy binding not restored" % (pi, k))
             return False
@@ -174,21 +195,23 @@ def spec(tier, seed):
     _progs()
     obs = []
     nsites = [3, 5, 3, 2, 1, 2, 2]
-    for pi in range(5):
+    for pi in range(7):
         fn = "h%d" % pi
-        L = ["def %s(has_hy: bool, give_locals: bool, same_dict: bool, k: int, x: int) -> bool:" % fn, '    """', "    post: _", '    """',
-             "    return eval_ok(%d, has_hy, give_locals, same_dict, _sk.box(k, -1, %d), x)" % (pi, nsites[pi] - 1)]
+        L = ["def %s(hv: int, give_locals: bool, same_dict: bool, k: int, x: int) -> bool:" % fn, '    """', "    post: _", '    """',
+             "    return eval_ok(%d, _sk.box(hv, 0, %d), give_locals, same_dict, _sk.box(k, -1, %d), x)" % (
+                 pi, (len(PRIOR) - 1) if (tier == "thorough" or pi == 0) else 3, nsites[pi] - 1)]
         obs.append(Ob(fn, "\n".join(L), sample="hy.eval(%s, globals[, locals]) with/without a prior hy entry, fault at each effect site or none" % (
-            ["3 top-level forms", "try/finally + if", "import + setv hy2 + lfor", "defmacro + macro call", "malformed (if 1): compile-time error"][pi]), group="single"))
+            ["3 top-level forms", "try/finally + if", "import + setv hy2 + lfor", "defmacro + macro call", "malformed (if 1): compile-time error", "the program itself assigns hy",
+             "the program itself deletes hy"][pi]), group="single"))
     fn = "hpair"
-    L = ["def hpair(p1: int, p2: int, has_hy: bool, k1: int, k2: int, x: int) -> bool:", '    """', "    post: _", '    """',
-         "    return eval_twice_ok(_sk.box(p1, 0, 4), _sk.box(p2, 0, 4), has_hy, _sk.box(k1, -1, 2), _sk.box(k2, -1, 2), x)"]
+    L = ["def hpair(p1: int, p2: int, hv: int, k1: int, k2: int, x: int) -> bool:", '    """', "    post: _", '    """',
+         "    return eval_twice_ok(_sk.box(p1, 0, 6), _sk.box(p2, 0, 6), _sk.box(hv, 0, %d), _sk.box(k1, -1, 2), _sk.box(k2, -1, 2), x)" % (len(PRIOR) - 1)]
     if tier == "thorough":
         obs.append(Ob(fn, "\n".join(L), sample="two hy.eval calls in sequence on one dict, each possibly failing at a symbolic site", group="sequence", timeout=3000.0))
     else:
-        L[-1] = "    return eval_twice_ok(_sk.box(p1, 0, 1), 4 if p2 % 2 else 0, has_hy, _sk.box(k1, -1, 2), _sk.box(k2, -1, 0), x)"
-        obs.append(Ob(fn, "\n".join(L), sample="two hy.eval calls in sequence on one dict (quick: programs {0,1} then {0, malformed})", group="sequence", timeout=900.0))
-    tw = "\n".join(["def twin0(has_hy: bool, k: int, x: int) -> bool:", '    """', "    post: _", '    """', "    eval_ok(0, has_hy, False, False, _sk.box(k, -1, 2), x)", "    return False"])
+        L[-1] = "    return eval_twice_ok((0, 1, 5)[_sk.box(p1, 0, 2)], 4 if p2 % 2 else 0, _sk.box(hv, 0, 3), _sk.box(k1, -1, 2), _sk.box(k2, -1, 0), x)"
+        obs.append(Ob(fn, "\n".join(L), sample="two hy.eval calls in sequence on one dict (quick: programs {0,1,5} then {0, malformed}; prior hy in {absent, object, None, 0})", group="sequence", timeout=900.0))
+    tw = "\n".join(["def twin0(hv: int, k: int, x: int) -> bool:", '    """', "    post: _", '    """', "    eval_ok(0, _sk.box(hv, 0, 2), False, False, _sk.box(k, -1, 2), x)", "    return False"])
     obs.append(Ob("twin0", tw, twin=True, group="twin"))
     return {
         "preamble": PREAMBLE,
@@ -197,11 +220,12 @@ def spec(tier, seed):
         "timeout": 900.0,
         "path_timeout": 120.0,
         "batch": 1,
-        "grade": "S (has_hy, give_locals, same_dict, fault site, x are solver variables; the whole of hy.eval incl. the compiler is traced)",
+        "grade": "S (prior hy entry, give_locals, same_dict, fault site, x are solver variables; the whole of hy.eval incl. the compiler is traced)",
         "functions_encoded": ["hy.compiler.hy_eval_user (the hy save/restore logic)", "hy.compiler.hy_eval, hy_compile (traced)", "hy.macros (defmacro at eval time)"],
-        "bounds": "5 programs (several top-level forms; try/finally and if; import + comprehension; defmacro + use; a malformed form that fails at compile time); globals with/without a prior hy entry; "
+        "bounds": "7 programs (several top-level forms; try/finally and if; import + comprehension; defmacro + use; a malformed form that fails at compile time; programs that assign / delete hy themselves); "
+                  "the prior hy entry absent or one of 8 objects (an arbitrary object, None, 0, '', (), False, an object with len 0, the hy module); "
                   "locals omitted / same dict / separate dict; fault at every effect site or none; unbounded x; sequences of two calls on one dict",
-        "outside": "hy.eval without globals (caller-frame lookup); the module= and macros= arguments; programs that themselves rebind or delete hy (listed but not asserted)",
+        "outside": "hy.eval without globals (caller-frame lookup); the module= and macros= arguments",
         "stubs": [],
         "assumptions": ["'the dictionary' = every dict passed (globals, and locals when it is a different dict)"],
         "rule": "one evaluation = one symbolic path (a class of (flags, fault site, x) assignments)",
